@@ -1,7 +1,9 @@
 (** C16.Run — case decoding, model run, and the spec predicates evaluated on the
     implementation's outcome (the failing-input search).  Case layout: harness/src/c16.rs. *)
-From Base Require Import Prelude Sx.
+From Base Require Import Prelude Sx Json.
 From Gen Require Import Versions PercentSet.
+From Gen Require EndpointBodies.
+From C18 Require Serde SerdeBridge.
 From C16 Require Import Model Spec.
 
 (* ---- decoding ------------------------------------------------------------------------- *)
@@ -190,6 +192,19 @@ Definition run (x : sx) : sx :=
                 else true in
               SL [model; sx_bool ok]
           | _, _, _ => sx_bad
+          end
+      | 13%Z, [SS ep; SS which; body] =>
+          (* JSON body through the generated conversions and back, against the derive interpreters run
+             on the body schema regenerated from the endpoint's source *)
+          match json_of_sx body, SerdeBridge.find_schema ep which EndpointBodies.endpoint_bodies with
+          | Some j, Some t =>
+              SL [SerdeBridge.model_schema_case t j;
+                  sx_bool (match impl with
+                           | SL [SN 0; SS text] => SerdeBridge.reread_ok t j text
+                           | SL [SN 1; SN 0] => true
+                           | _ => false       (* accepted but not re-encodable, or a panic *)
+                           end)]
+          | _, _ => sx_bad
           end
       | 2%Z, [h; vs] =>
           match hist_of_sx h, as_list_of as_N vs with
